@@ -4,6 +4,7 @@ package main
 // models actually used by a run is copied into the evidence.
 
 import (
+	"crypto/sha256"
 	"sync"
 	"fmt"
 	"go/types"
@@ -516,6 +517,33 @@ func init() {
 			x.shaPCs = append(x.shaPCs, append([]T(nil), st.PC...))
 		}
 		r := app(SString, "uf_sha256", tt(a[0]))
+		st.assume(Eq(StrLen(r), IntLit(32)), "sha256 length")
+		return r
+	})
+	reg("encoding/json.Marshal", "json(v): an uninterpreted function of the value, never failing for the string slices it is used on", func(x *Exec, st *State, ci *callInfo, a []Val) Val {
+		iv, ok := a[0].(*IfaceV)
+		if !ok || iv.Sym || iv.Typ == nil {
+			x.fail("json.Marshal of %T", a[0])
+		}
+		so := x.e.sortOf(iv.Typ)
+		fn := "uf_json_" + mangle(so)
+		x.e.declareFun(fn, "("+so+") String")
+		return &TupleV{Vs: []Val{app(SString, fn, x.e.reify(st, iv.V, iv.Typ)), &ErrV{IsNil: TTrue}}}
+	})
+	reg("strings.ToLower", "tolower(s) (uninterpreted, length-preserving)", func(x *Exec, st *State, ci *callInfo, a []Val) Val {
+		x.e.declareFun("uf_tolower", "(String) String")
+		r := app(SString, "uf_tolower", tt(a[0]))
+		st.assume(Eq(StrLen(r), StrLen(tt(a[0]))), "ToLower keeps the length (ASCII addresses)")
+		return r
+	})
+	reg("github.com/tendermint/tendermint/crypto/tmhash.Sum", "sha256: computed for literal inputs, otherwise an uninterpreted 32-byte function", func(x *Exec, st *State, ci *callInfo, a []Val) Val {
+		in := tt(a[0])
+		if len(in.Segs) == 1 && in.Segs[0].Kind == "const" {
+			h := sha256.Sum256(in.Segs[0].Lit)
+			return T{S: smtStrLit(h[:]), So: SString, Segs: []Seg{{Kind: "const", Lit: h[:], S: smtStrLit(h[:])}}}
+		}
+		x.e.declareFun("uf_sha256", "(String) String")
+		r := app(SString, "uf_sha256", in)
 		st.assume(Eq(StrLen(r), IntLit(32)), "sha256 length")
 		return r
 	})
